@@ -207,51 +207,80 @@ func init() {
 			}
 			var skip, final []int64
 			S := map[int]bool{}
-			// the final set: the decision for c1 after a skipping first byte; find a skipping byte first
+			memo := map[string]bool{}
+			mcall := func(s string) bool {
+				if v, ok := memo[s]; ok {
+					return v
+				}
+				v := call(s)
+				memo[s] = v
+				return v
+			}
+			// a first byte that defers the decision to the second one
 			skipByte := -1
 			for c0 := 0; c0 < 256 && skipByte < 0; c0++ {
-				vals := map[bool]int{}
-				for c1 := 0; c1 < 256; c1++ {
-					vals[call(string([]byte{byte(c0), byte(c1)}))]++
+				if !mcall(string([]byte{byte(c0)})) {
+					continue // a skipping byte alone gives true
 				}
-				if len(vals) == 2 {
+				t, f := false, false
+				for c1 := 0; c1 < 256 && !(t && f); c1++ {
+					if mcall(string([]byte{byte(c0), byte(c1)})) {
+						t = true
+					} else {
+						f = true
+					}
+				}
+				if t && f {
 					skipByte = c0
 				}
 			}
 			if skipByte < 0 {
 				return fmt.Errorf("isMarkdownEndURL: no first byte defers to the second")
 			}
+			in, out := -1, -1
 			for c := 0; c < 256; c++ {
-				if call(string([]byte{byte(skipByte), byte(c)})) {
+				if mcall(string([]byte{byte(skipByte), byte(c)})) {
 					S[c] = true
 					final = append(final, int64(c))
+					if c != skipByte {
+						in = c
+					}
+				} else {
+					out = c
 				}
 			}
-			isSkip := func(c0 int) bool {
-				for c1 := 0; c1 < 256; c1++ {
-					if call(string([]byte{byte(c0), byte(c1)})) != S[c1] {
-						return false
+			if in < 0 || out < 0 {
+				return fmt.Errorf("isMarkdownEndURL: degenerate final set")
+			}
+			probes := []int{in, out, 0, 255, 'a', ' ', '.', '?'}
+			for c0 := 0; c0 < 256; c0++ {
+				isSkip := mcall(string([]byte{byte(c0)}))
+				for _, c1 := range probes {
+					if mcall(string([]byte{byte(c0), byte(c1)})) != S[c1] {
+						isSkip = false
 					}
 				}
-				return call(string([]byte{byte(c0)}))
-			}
-			for c0 := 0; c0 < 256; c0++ {
-				if isSkip(c0) {
+				if isSkip {
 					skip = append(skip, int64(c0))
+					// a skipping byte must defer for every second byte
+					for c1 := 0; c1 < 256; c1++ {
+						if mcall(string([]byte{byte(c0), byte(c1)})) != S[c1] {
+							return fmt.Errorf("isMarkdownEndURL: byte %d defers to the second byte only sometimes", c0)
+						}
+					}
 					continue
 				}
-				// must be decided by c0 alone, for every length
 				want := S[c0]
-				if call(string([]byte{byte(c0)})) != want {
+				if mcall(string([]byte{byte(c0)})) != want {
 					return fmt.Errorf("isMarkdownEndURL: byte %d alone disagrees with the final set", c0)
 				}
-				for c1 := 0; c1 < 256; c1++ {
-					if call(string([]byte{byte(c0), byte(c1)})) != want {
+				for _, c1 := range probes {
+					if mcall(string([]byte{byte(c0), byte(c1)})) != want {
 						return fmt.Errorf("isMarkdownEndURL: not of the expected form at bytes %d %d", c0, c1)
 					}
 				}
 			}
-			fmt.Fprintf(b, "(* lexer.go isMarkdownEndURL(s): true if s is empty; if s[0] is in skip: true if len(s)=1 else s[1] in final; else s[0] in final (form checked on all pairs) *)\n")
+			fmt.Fprintf(b, "(* lexer.go isMarkdownEndURL(s): true if s is empty; if s[0] is in skip: true if len(s)=1 else s[1] in final; else s[0] in final (form checked on every first byte with probe second bytes) *)\n")
 			fmt.Fprintf(b, "Definition gen_mdEndURL_skip : list N := %s.\nDefinition gen_mdEndURL_final : list N := %s.\n\n", coqNList(skip), coqNList(final))
 		}
 
